@@ -220,11 +220,19 @@ def gen_arith(rng, depth=0):
         return rng.choice([F('a'), F('c'), F('d'), Value(2), Value(7)])
     left = gen_arith(rng, depth + 1)
     right = gen_arith(rng, depth + 1)
-    op = rng.choice(['+', '-', '*'])
+    op = rng.choice(['+', '-', '*', '+', '-', '*', '/', '%', '&', '**'])
     if op == '+':
         return left + right
     if op == '-':
         return left - right
+    if op == '/':
+        return left / right
+    if op == '%':
+        return left % right
+    if op == '&':
+        return left.bitand(right)
+    if op == '**':
+        return left ** right
     return left * right
 
 
